@@ -135,3 +135,31 @@ func verifH_C14_entry() {
 		verifAssert(ok == (err == nil), "verdict-and-error-agree")
 	}
 }
+
+// Admission does not depend on earlier calls: after a successful call with a usable suite of the
+// same name, an unusable suite / inadmissible input is still refused (and a usable, admitted one
+// accepted); no call writes state a later call reads.
+//
+//verif:harness prop=C14 name=history
+//verif:cases quick rawlen=3 hash=0,3 digits=3,6,11
+//verif:cases thorough rawlen=0,3 hash=0..3 digits=3,4,6,10,11
+//verif:replace github.com/ja7ad/otp.DecodeSecret=verifStub_DecodeSecret
+//verif:opt maxpaths=6000 unwind=400 hmac=fresh
+func verifH_C14_history() {
+	cfg := verifSymConfig(verifCase("rawlen"))
+	cfg.Hash = Algorithm(verifCase("hash"))
+	cfg.Digits = verifCase("digits")
+	good := SuiteConfig{Raw: cfg.Raw, Hash: SHA1, Digits: 6, Challenge: ChallengeNumeric08, IncludeChallenge: true}
+	key := verifBytes("key", 10)
+	verifBeginOp()
+	_, e0 := GenerateOCRA(verifSecretFor(key, false), good, OCRAInput{Challenge: verifBytes("g.Q", 8)})
+	verifAssert(e0 == nil, "earlier-call-with-a-usable-suite-succeeds")
+	in := verifSymInput(0)
+	want := verifAnd(verifUsable(cfg), verifAdmit(cfg, in))
+	code, err := GenerateOCRA(verifSecretFor(key, false), cfg, in)
+	verifEndOp()
+	verifObserve("ok", err == nil)
+	verifAssert((err == nil) == want, "admission-independent-of-earlier-calls")
+	verifAssert(verifImplies(err != nil, code == ""), "no-code-with-error")
+	verifAssert(verifFrameViolations() == 0, "calls-write-nothing-a-later-call-reads")
+}
